@@ -11,6 +11,36 @@ CHAR_SIGMA = ['a', '1', '_', '.', '(', ')', '[', ']', '{', '}', ':', '=', '!', "
 LAYOUT_LEX = [' ', '  ', '\t', '\\\n', '\\\r\n', '\n', '\r', 'a', ':', '#c', '\x0c', 'if a:', '(', ')', "'''", '\ufeff']
 
 
+def dense_family_texts(K=80):
+    """every size k = 1..K of a set of one-parameter text families, plus the same text with a multi-byte character in place of the last plain one"""
+    fam = {
+        'name': lambda k: 'a' * k, 'int': lambda k: '9' * k, 'int-zeros': lambda k: '0' * k, 'hex': lambda k: '0x' + 'f' * k, 'hex-1': lambda k: '0x1' + '0' * k,
+        'octal': lambda k: '0o' + '7' * k, 'octal-2': lambda k: '0o2' + '0' * k, 'binary': lambda k: '0b' + '1' * k, 'float-digits': lambda k: '1.' + '0' * (k - 1) + '1',
+        'float-long': lambda k: '9' * k + '.5e3', 'imaginary': lambda k: '1' * k + 'j', 'underscores': lambda k: '1' + '_1' * k,
+        'string': lambda k: "'" + 'x' * k + "'", 'bytes': lambda k: "b'" + 'x' * k + "'", 'string-escapes': lambda k: "'" + '\\n' * k + "'",
+        'unicode-name': lambda k: "'\\N{" + 'A' * k + "}'", 'unicode-name-dash': lambda k: "'\\N{EM DASH}" + 'x' * k + "\\N{EM DASH}'",
+        'fstring-text': lambda k: "f'" + 'x' * k + "{a}'", 'fstring-spec': lambda k: "f'{a:" + 'x' * k + "}{b}'", 'fstring-expr': lambda k: "f'{" + 'a' * k + "}'",
+        'comment': lambda k: '#' + 'c' * k + '\na', 'comment-after': lambda k: 'a #' + 'c' * k, 'line-crlf': lambda k: 'a' * k + '\r\nb\r\n', 'line-cr': lambda k: 'a' * k + '\rb',
+        'blank-lines': lambda k: 'a' + '\n' * k + 'b', 'blank-lines-in-block': lambda k: 'if a:\n x\n' + '\n' * k + ' y\n', 'comment-lines-in-block': lambda k: 'if a:\n x\n' + '#\n' * k + ' y\n',
+        'blank-lines-in-brackets': lambda k: '(a,' + '\n' * k + ' b)', 'spaces': lambda k: 'a' + ' ' * k + '+ b', 'indent': lambda k: 'if a:\n' + ' ' * k + 'b\n', 'tabs': lambda k: 'if a:\n' + '\t' * k + 'b\n',
+        'continuations': lambda k: 'a = 1' + ' \\\n' * k + ' + 1', 'parens': lambda k: '(' * k + 'a' + ')' * k, 'args': lambda k: 'f(' + 'a, ' * k + ')', 'kwargs': lambda k: 'f(' + ', '.join('k%d=1' % i for i in range(k)) + ')',
+        'params-defaults': lambda k: 'def f(' + ', '.join('p%d=1' % i for i in range(k)) + '): pass', 'concat': lambda k: "'s' " * k, 'elif': lambda k: 'if a: pass\n' + 'elif a: pass\n' * k,
+        'statements-in-else': lambda k: 'if a:\n b\nelse:\n if c:\n  d\n' + ' e\n' * k, 'dict': lambda k: '{' + 'a: a, ' * k + '}', 'dots': lambda k: 'a' + '.b' * k, 'decorators': lambda k: '@a\n' * k + 'def f(): pass',
+        'semicolons': lambda k: 'a' + '; a' * k, 'with-items': lambda k: 'with a' + ', a' * k + ': pass', 'global': lambda k: 'global ' + ', '.join('g%d' % i for i in range(k + 1)),
+    }
+    out = []
+    for name, f in fam.items():
+        for k in range(1, K + 1):
+            t = f(k)
+            out.append((t, 'dense family %s' % name))
+            for plain in ('x', 'c', 'a', 'A'):
+                i = t.rfind(plain)
+                if i >= 0 and not name.startswith(('int', 'hex', 'octal', 'binary', 'float', 'imaginary', 'underscores', 'bytes')):
+                    out.append((t[:i] + 'é' + t[i + 1:], 'dense family %s (multi-byte)' % name))
+                    break
+    return out
+
+
 def norm_relation(rel):
     """signature of a broken relation: offsets and node kinds stay, concrete numbers go"""
     return re.sub(r'\d+', 'N', rel)
